@@ -196,3 +196,73 @@ def forbidden_calls(run, patterns, rule, instance, scope=None):
                     run.violation(rule, instance, '%s calls %s' % (q.top_function(fx, fn).norm, cn), fn.loc(c), 'forbidden ambient API (%s): %s' % (why, cn))
     run.ok(rule, instance, 'scan', '', 'scanned %d resolved call sites against %d forbidden API patterns; %d hits' % (scanned, len(rx), hits), nontrivial=False, detail={'call_sites': scanned})
     return scanned
+
+
+# ---------------------------------------------------------------------------
+def class_fields(fx, norms, spec_hint=None):
+    """[(qualified field, field dict)] of the given records (bases listed explicitly)."""
+    out = []
+    seen = set()
+    for nm in norms:
+        for r in fx.record(nm):
+            if spec_hint and r.get('spec') and spec_hint not in r['name']:
+                continue
+            for f in r['fields']:
+                k = r['norm'] + '::' + f['name']
+                if k not in seen:
+                    seen.add(k)
+                    out.append((k, f))
+    return out
+
+
+def r7_coverage(run, fn, fields, persistent, family, aliases=None, rule='R7', what='close'):
+    """R7 COVERAGE: fn resets every field not tabled as persistent, on every
+    normal path (directly, through a callee that does so on all of its paths,
+    or because a dominating test shows the field already has its default)."""
+    import handlers
+    fx = run.fx
+    aliases = aliases or {}
+    run.touch(fn)
+    used = set()
+    for k, f in fields:
+        short = k.split('::')[-1]
+        if short in persistent:
+            used.add(short)
+            run.ok(rule, what, '%s keeps %s' % (fn.norm, short), '%s' % fn.loc(), 'persistent: ' + persistent[short], nontrivial=False)
+            continue
+        ff = handlers.FieldResetFlow(fx, k, family, alias=aliases.get(short))
+        st = ff.exit_state(fn)
+        run.check(st == handlers.EMPTY, rule, what, '%s resets %s' % (fn.norm, short), fn.loc(),
+                  'session field %s (%s) is not reset on every normal path through %s: its value survives into the next use of the object' % (short, f['ty'][:60], fn.norm.split('::')[-1]),
+                  'reset on every path (assignment, clear/reset, moved out, aborting callee, or dominated by a test that it is already default)')
+    for p in persistent:
+        if p not in used:
+            run.broke('%s: persistent field %s not found in the class (anchor vanished)' % (rule, p))
+
+
+def co_written(run, fields_pair, rule='R7', scope_cls=None):
+    """Every function that assigns `a` (on this) also assigns `b` in the same
+    block, so a test of a's default-ness covers b."""
+    fx = run.fx
+    a, b = fields_pair
+    bad = []
+    n = 0
+    for fn in fx.repo_functions():
+        if fn.d.get('defaulted') or fn.cfg is None:
+            continue
+        accs = [x for x in q.field_accesses(fn, {a, b}) if x.kind == 'assign' and q.is_this(q.access_root(x.node)) and not x.partial]
+        sa = [x for x in accs if x.field == a]
+        sb = [x for x in accs if x.field == b]
+        if not sa and not sb:
+            continue
+        n += 1
+        for x in sa:
+            bx = fn.cfg.node_block(x.site)
+            if not any(fn.cfg.node_block(y.site) == bx for y in sb):
+                bad.append((fn, x))
+    if bad:
+        fn, x = bad[0]
+        run.violation(rule, 'co-written', '%s with %s' % (a.split('::')[-1], b.split('::')[-1]), fn.loc(x.node),
+                      '%s assigns %s without assigning %s alongside it; the default-ness test of the former no longer covers the latter' % (fn.norm, a.split('::')[-1], b.split('::')[-1]))
+    else:
+        run.ok(rule, 'co-written', '%s with %s' % (a.split('::')[-1], b.split('::')[-1]), '', 'assigned together in all %d functions that assign either' % n)
